@@ -431,6 +431,16 @@ static void gen_mut(Rng &r, Out &o, int node, int dg, const std::string &scen, b
     // field positions of a representative datagram of this scenario
     Rng r2 = r.fork(99);
     Built b = build_for(r2, scen, udp, tscf, false, 0);
+    if (r.chance(0.15)) {
+        // move a numeric field by a structured amount: +-1, powers of two, whole media clock periods (125 us), whole seconds
+        const Field &f = b.fields[r.below(b.fields.size())];
+        static const uint64_t unit[] = {1, 125000, 1000000, 20000000, 1000000000ULL, 3333333};
+        uint64_t d = unit[r.below(6)] * (r.chance(0.5) ? r.range(1, 8) : (1ULL << r.below(30)));
+        if (r.chance(0.3)) d = 1ULL << r.below(f.w ? f.w : 1);
+        if (r.coin()) d = (uint64_t)(-(int64_t)d);
+        o.line(strf("mut node=%d dg=%d kind=add a=%zu b=%u c=0x%llx", node, dg, f.off, f.w, (unsigned long long)d));
+        return;
+    }
     switch (r.below(8)) {
     case 0: o.line(strf("mut node=%d dg=%d kind=trunc a=%llu", node, dg, (unsigned long long)r.below(typical_len + 1))); break;
     case 1: o.line(strf("mut node=%d dg=%d kind=extend a=%llu b=%llu style=%s", node, dg, (unsigned long long)r.range(1, 1600),
